@@ -1,16 +1,24 @@
 (* Executable judge for C07 correspondence cases.
 
-   One case = one (template, data) pair and EVERY output the real engine produced for it:
-   twice on one engine, on a second engine, on a third engine after a prefix of other renders,
-   with freshly built equal data, and in several fresh processes.  The property's oracle looks
-   only at Go's own observations: all outputs byte-identical and the caller's data deep-equal
-   (reflect.DeepEqual in the harness) to a pristine copy.  Where the template is one of the
-   shapes of Models/Purity.v the outputs are also compared with the model's prediction. *)
-From PV Require Import Base.Bytes Base.Escape Tmpl.Value Run.Verdict.
+   One case = one (template, data) pair and EVERY output the real engine produced for it, in
+   processes that ran nothing but this case: as the first render of a process, again on the same
+   engine, on a second engine, then - after a history of renders of other templates and of the
+   same template with other data, on any engine of the process - on a third engine, with freshly
+   built equal data, on an engine created only then; and as the only render of several more
+   processes.  The property's oracle looks only at Go's own observations: all outputs
+   byte-identical and the caller's data deep-equal (reflect.DeepEqual in the harness) to a
+   pristine copy.  Where a model covers the template the outputs are also compared with its
+   prediction: Models/Purity.v for the order-sensitive shapes, the executor model
+   Pug.Compile + Tmpl.Exec (a function of the template and the data alone: the heap starts with
+   the converted data and an empty $global, every literal allocates a new cell) for templates
+   given as pug trees. *)
+From PV Require Export Base.Bytes Js.Ast Pug.Ast.
+From PV Require Import Base.Escape Pug.Compile Tmpl.Value Tmpl.IR Tmpl.Exec Run.Verdict.
 From PV Require Export Models.Purity.
 
 Record case07 := {
-  c_shape     : option shape;          (* None: template outside the modelled shapes *)
+  c_shape     : option shape;          (* None: template outside the shapes of Models/Purity.v *)
+  c_tmpl      : option (list pnode);   (* the template as a pug tree, where the generator has one *)
   c_data      : gdata;                 (* the caller's data as built by the harness *)
   c_outs      : list (option bytes);   (* Some out | None = execution error, one per observed render *)
   c_untouched : bool;                  (* harness: data deep-equals the pristine copy after all renders *)
@@ -34,16 +42,197 @@ Fixpoint data_small (d : gdata) : bool :=
   | _ => true
   end.
 
-Definition model07 (c : case07) : option bytes :=
-  match c_shape c with
-  | Some sh => if data_small (c_data c) then render_shape id_oracle sh (c_data c) else None
-  | None => None
+(* ---- the executor model on the harness's data ---------------------------------------------- *)
+(* what convert (types.go) makes of the caller's data, as the executor model's input: map keys by
+   their names, struct fields by lowerFirst(name), pointers followed, nil pointers as nil *)
+Fixpoint dval_of (d : gdata) : Tmpl.Exec.dval :=
+  match d with
+  | GNil => DNil
+  | GBool b => DBool b
+  | GInt z => DInt z
+  | GStr s => DStr s
+  | GArr l => DArr (map dval_of l)
+  | GMap kvs => DMap (map (fun kv => (key_text (fst kv), dval_of (snd kv))) kvs)
+  | GStruct fs => DMap (map (fun kv => (lower_first (fst kv), dval_of (snd kv))) fs)
+  | GPtr None => DNil
+  | GPtr (Some d') => dval_of d'
   end.
+
+Definition std_funcs : list bytes := [B "Math"; B "JSON"; B "Object"; B "stripTags"; B "parseInt"].
+
+(* ---- `x[i] = e` ------------------------------------------------------------------------------
+   renderExpression (transform_js_.go, AssignExpression with a BracketExpression on the left) emits
+   `{{ ($x.__assign I E) -}}` - the action the method call `x.__assign(i, e)` is compiled to, except
+   for the wrapper (statement form with a trim marker instead of ` | __pug__html` on the Nil that
+   __assign returns).  Pug.Compile has no case for the bracket form; the executor model is therefore
+   run on the template with these statements written as that call.  The two differ only where a
+   text that begins with white space follows (the trim marker eats it): such templates are declined. *)
+Definition rw_stmt (s : jstmt) : jstmt :=
+  match s with
+  | SExpr (JAssign None (JIdx (JId x) i) e) => SExpr (JCall (JDot (JId x) (B "__assign")) [i; e])
+  | _ => s
+  end.
+Definition idx_stmt (s : jstmt) : bool :=
+  match s with SExpr (JAssign None (JIdx _ _) _) => true | _ => false end.
+
+Fixpoint rw_node (n : pnode) : pnode :=
+  match n with
+  | PTag nm il ats abs body => PTag nm il ats abs (map rw_node body)
+  | PCode stmts e i => PCode (map rw_stmt stmts) e i
+  | PCond t c a => PCond t (map rw_node c) (option_map rw_node a)
+  | PCase e ws => PCase e (map (fun w => (fst w, map rw_node (snd w))) ws)
+  | PEach v k o body => PEach v k o (map rw_node body)
+  | PWhile t body => PWhile t (map rw_node body)
+  | PMixinDef nm ps body => PMixinDef nm ps (map rw_node body)
+  | PMixinCall nm args ats body => PMixinCall nm args ats (map rw_node body)
+  | PBlock ns => PBlock (map rw_node ns)
+  | PText _ | PMixinBlock | PDoctype _ | PComment => n
+  end.
+
+(* some node satisfies [p] *)
+Fixpoint any_node (p : pnode -> bool) (n : pnode) : bool :=
+  p n ||
+  match n with
+  | PTag _ _ _ _ body | PEach _ _ _ body | PWhile _ body | PMixinDef _ _ body | PMixinCall _ _ _ body
+  | PBlock body => existsb (any_node p) body
+  | PCond _ c a => existsb (any_node p) c || match a with Some a' => any_node p a' | None => false end
+  | PCase _ ws => existsb (fun w => existsb (any_node p) (snd w)) ws
+  | _ => false
+  end.
+Definition has_idx_assign (n : pnode) : bool :=
+  match n with PCode stmts _ _ => existsb idx_stmt stmts | _ => false end.
+Definition text_leads_ws (n : pnode) : bool :=
+  match n with PText (c :: _) => is_space c | _ => false end.
+
+(* the rewritten call is the bracket form only on a receiver that holds an object: every `x[i] = e` must
+   come after a top-level `var x = ...` (an unset variable makes Go print the failed action as text) *)
+Definition decl_names (n : pnode) : list bytes :=
+  match n with
+  | PCode stmts _ _ =>
+    flat_map (fun s => match s with
+                       | SVar ds => flat_map (fun d => match d with JVar x (Some _) => [x] | _ => [] end) ds
+                       | _ => []
+                       end) stmts
+  | _ => []
+  end.
+Definition bad_idx_target (declared : list bytes) (n : pnode) : bool :=
+  match n with
+  | PCode stmts _ _ =>
+    existsb (fun s => match s with
+                      | SExpr (JAssign None (JIdx (JId x) _) _) => negb (mem x declared)
+                      | SExpr (JAssign None (JIdx _ _) _) => true
+                      | _ => false
+                      end) stmts
+  | _ => false
+  end.
+Fixpoint idx_ok (declared : list bytes) (ns : list pnode) : bool :=
+  match ns with
+  | [] => true
+  | n :: r => negb (any_node (bad_idx_target declared) n) && idx_ok (decl_names n ++ declared) r
+  end.
+
+(* ---- first-letter case ------------------------------------------------------------------------
+   Map.MarshalJSON stores the entries under lowerFirst(key); when two keys of one object differ only
+   in the case of the first letter, the survivor is decided by the (sorted) visiting order - Models/
+   Purity.v follows that (marshal_tmp), the executor model's json_of does not.  The executor model is
+   used only where no object can hold such a pair: among all names that can become keys of an object a
+   template prints (map keys and struct fields below the top level, every string in the data - a
+   template may use it as a key -, and the names the generated templates assign to) no two distinct
+   ones agree after lowerFirst.  Top-level keys only name variables. *)
+Fixpoint data_names (d : gdata) : list bytes :=
+  match d with
+  | GStr s => [s]
+  | GArr l => flat_map data_names l
+  | GMap kvs => flat_map (fun kv => key_text (fst kv) :: data_names (snd kv)) kvs
+  | GStruct fs => flat_map (fun kv => lower_first (fst kv) :: data_names (snd kv)) fs
+  | GPtr (Some d') => data_names d'
+  | _ => []
+  end.
+Definition value_names (d : gdata) : list bytes :=
+  match d with
+  | GMap kvs | GPtr (Some (GMap kvs)) => flat_map (fun kv => data_names (snd kv)) kvs
+  | _ => data_names d
+  end.
+Fixpoint jexpr_names (fuel : nat) (e : jexpr) : list bytes :=
+  match fuel with
+  | O => []
+  | S f =>
+    match e with
+    | JStr s => [s]
+    | JDot x n => n :: jexpr_names f x
+    | JObj kvs => flat_map (fun kv => fst kv :: jexpr_names f (snd kv)) kvs
+    | JArr es | JSeq es => flat_map (jexpr_names f) es
+    | JIdx x i => jexpr_names f x ++ jexpr_names f i
+    | JCall g args | JNew g args => jexpr_names f g ++ flat_map (jexpr_names f) args
+    | JUn _ _ x => jexpr_names f x
+    | JBin _ l r | JAssign _ l r => jexpr_names f l ++ jexpr_names f r
+    | JCond c a b => jexpr_names f c ++ jexpr_names f a ++ jexpr_names f b
+    | JVar _ (Some i) => jexpr_names f i
+    | _ => []
+    end
+  end.
+Definition stmt_names (s : jstmt) : list bytes :=
+  match s with
+  | SExpr e => jexpr_names 40 e
+  | SVar ds => flat_map (jexpr_names 40) ds
+  | _ => []
+  end.
+Fixpoint node_names (n : pnode) : list bytes :=
+  match n with
+  | PTag _ _ ats _ body => flat_map (fun a => pa_name a :: jexpr_names 40 (pa_val a)) ats ++ flat_map node_names body
+  | PCode stmts _ _ => flat_map stmt_names stmts
+  | PCond t c a => jexpr_names 40 t ++ flat_map node_names c ++ match a with Some a' => node_names a' | None => [] end
+  | PCase e ws => jexpr_names 40 e ++ flat_map (fun w => flat_map node_names (snd w)) ws
+  | PEach _ _ o body => jexpr_names 40 o ++ flat_map node_names body
+  | PWhile t body => jexpr_names 40 t ++ flat_map node_names body
+  | PMixinDef _ _ body => flat_map node_names body
+  | PMixinCall _ args ats body =>
+    flat_map (jexpr_names 40) args ++ flat_map (fun a => pa_name a :: jexpr_names 40 (pa_val a)) ats
+    ++ flat_map node_names body
+  | PBlock ns => flat_map node_names ns
+  | _ => []
+  end.
+(* true when two distinct names agree after lowerFirst *)
+Fixpoint fold_clash (seen l : list bytes) : bool :=
+  match l with
+  | [] => false
+  | x :: r =>
+    if existsb (fun y => beqb (lower_first x) (lower_first y) && negb (beqb x y)) seen then true
+    else fold_clash (if mem x seen then seen else x :: seen) r
+  end.
+
+(* Some (Some out) | Some None = execution error | None = the model declines *)
+Definition exec_model (nodes : list pnode) (d : gdata) : option (option bytes) :=
+  if fold_clash [] (flat_map node_names nodes ++ value_names d) then None
+  else if existsb (any_node has_idx_assign) nodes && existsb (any_node text_leads_ws) nodes then None
+  else if negb (idx_ok [] nodes) then None
+  else
+  match Pug.Compile.compile std_funcs false (map rw_node nodes) with
+  | None => None
+  | Some ts =>
+    match parse_program ts with
+    | None => None
+    | Some p =>
+      match Tmpl.Exec.run_program p (dval_of d) with
+      | OOk o => Some (Some o)
+      | OPanic => Some None
+      | OUnmod | OFuel => None
+      end
+    end
+  end.
+
+Definition model07 (c : case07) : option (option bytes) :=
+  if data_small (c_data c) then
+    match c_shape c with
+    | Some sh => match render_shape id_oracle sh (c_data c) with Some o => Some (Some o) | None => None end
+    | None => match c_tmpl c with Some nodes => exec_model nodes (c_data c) | None => None end
+    end
+  else None.
 
 Definition judge (c : case07) : nat :=
   let dom := dom_data (c_data c) in
   match model07 c with
-  | Some m => verdict dom (oracle07 c) (forallb (opt_beqb (Some m)) (c_outs c))
+  | Some m => verdict dom (oracle07 c) (forallb (opt_beqb m) (c_outs c))
   | None => if dom && negb (oracle07 c) then v_violation
             else if dom then v_unmodelled else v_drift
   end.
